@@ -26,7 +26,7 @@ import (
 var goenv = []string{"GOFLAGS=-mod=mod", "GOPROXY=off", "GOSUMDB=off", "GOTOOLCHAIN=local", "CGO_ENABLED=0"}
 
 const hangAfter = 20 * time.Second
-const maxQuickRuns = 1000
+const maxQuickRuns = 1200
 
 func main() {
 	if len(os.Args) < 2 {
